@@ -99,7 +99,10 @@ def build(spec, seed=0):
             from plinio.methods.pit.nn.dilation_masker import PITDilationMasker
             g = nd['pit']
             if g not in maskers:
-                maskers[g] = (PITFrozenFeaturesMasker if nd.get('pit_frozen') else PITFeaturesMasker)(nd['cout'])
+                if nd.get('pit_frozen'):
+                    maskers[g] = PITFrozenFeaturesMasker(nd['cout'])
+                else:   # a masker that is not trainable still masks the channels its alpha selects
+                    maskers[g] = PITFeaturesMasker(nd['cout'], trainable=not nd.get('pit_untrainable', False))
             if k == 'conv1d':
                 return PITConv1d(m, maskers[g], PITTimestepMasker(nd['ks']), PITDilationMasker(nd['ks']))
             if k == 'conv2d':
@@ -461,6 +464,17 @@ class G(GA.G):
             b = self.flat(self.add(k='gap%dd' % self.dim, src=self.act(self.same_shape_conv(cur))))
             cur = self.add(k='cat', src=[a, b] if rng.random() < 0.5 else [b, a], dim=1)
             self.prod.append('head:cat-of-flatten')
+        if len(self.sh(cur)) == 1 and self.nodes[cur]['k'] not in ('conv1d', 'conv2d', 'linear') and rng.random() < self.o.get('p_bn_after_flatten', 0.25):
+            # a stand-alone BatchNorm1d on the flattened / squeezed tensor (spatial size 1 and > 1), possibly behind other propagating ops
+            r2 = rng.random()
+            if r2 < 0.3:
+                cur = self.add(k='relu', src=cur)
+            elif r2 < 0.45:
+                cur = self.add(k='dropout', src=cur)
+            cur = self.bn(cur, 1.0)
+            if rng.random() < 0.3:
+                cur = self.add(k='relu', src=cur)
+            self.prod.append('head:bn-after-flatten')
         f = self.sh(cur)[-1]
         if rng.random() < 0.6:
             h = rng.randint(2, 6)
@@ -558,6 +572,10 @@ def _gen(rng, dim=None, depth=None, **opts):
     elif r < opts.get('p_noauto', 0.10) + opts.get('p_placed', 0.08) and 'exclude_types' not in spec:
         user_pit(spec, rng, auto=True)
         g.prod.append('autoconvert-on-with-placed-pit-layers')
+    elif r < opts.get('p_noauto', 0.10) + opts.get('p_placed', 0.08) + opts.get('p_rewrap', 0.10):
+        # PIT(model) -> masks assigned -> train_features = False -> PIT(pit.seed, autoconvert_layers=False, train_features=False)
+        spec['rewrap'] = True
+        g.prod.append('rewrap-with-features-frozen')
     return spec
 
 
@@ -611,6 +629,14 @@ def user_pit(spec, rng, auto=False):
         if nd.get('pit') is not None:
             nd['pit'], nd['pit_frozen'] = part[i]
             placed.append(i)
+    # some of the user's (non-frozen) maskers are created with trainable=False: they still mask what their alpha selects
+    for c in sorted(set(spec['nodes'][i]['pit'] for i in placed if not spec['nodes'][i]['pit_frozen'])):
+        if rng.random() < 0.35:
+            for i in placed:
+                if spec['nodes'][i]['pit'] == c:
+                    spec['nodes'][i]['pit_untrainable'] = True
+            if 'untrainable-placed-masker' not in spec.get('productions', []):
+                spec.setdefault('productions', []).append('untrainable-placed-masker')
     r = rng.random()
     if placed and r < 0.55:
         spec['exclude_names'] = sorted(set(spec.get('exclude_names', []) + rng.sample(placed, min(len(placed), rng.randint(1, 2)))))
@@ -687,4 +713,8 @@ def describe(spec):
         s += ' exclude_types=%s' % spec['exclude_types']
     if not spec.get('autoconvert', True):
         s += ' autoconvert=off'
+    if spec.get('rewrap'):
+        s += ' rewrap(train_features=False)'
+    if any(nd.get('pit_untrainable') for nd in spec['nodes']):
+        s += ' untrainable-maskers=%s' % sorted(set(nd['pit'] for nd in spec['nodes'] if nd.get('pit_untrainable')))
     return s
